@@ -118,9 +118,70 @@ def pmap(fn, items, procs=None, chunk=64):
         return pool.map(fn, items, chunksize=max(1, min(chunk, len(items) // (procs * 4) or 1)))
 
 
+PRELUDE = 0          # when k > 0: objects whose sequence has crc32 % k == 0 get prelude() before the query under test
+
+
+DECORATE = 0         # when k > 0: sequences with crc32 % k == 1 are handed over as a user might paste them (decorate())
+
+
+def decorate(s, h):
+    """the same word in another accepted spelling: mixed case, blocks of ten, wrapped lines, trailing newline"""
+    k = (h // 7) % 5
+    if k == 0:
+        return ''.join(c.lower() if (h >> (i % 24)) & 1 else c for i, c in enumerate(s))
+    if k == 1:
+        return ' '.join(s[i:i + 10] for i in range(0, len(s), 10)) + ' '
+    if k == 2:
+        return '\n'.join(s[i:i + 7] for i in range(0, len(s), 7)) + '\n'
+    if k == 3:
+        return s + '\n'
+    return '\t' + s.lower() + ' '
+
+
 def SP(seq):
     from localcider.sequenceParameters import SequenceParameters
-    return SequenceParameters(seq)
+    given = seq
+    h = 0
+    if (PRELUDE or DECORATE) and isinstance(seq, str) and seq:
+        import zlib
+        h = zlib.crc32(seq.encode('utf-8', 'replace'))
+        if DECORATE and h % DECORATE == 1 and seq.isalpha() and seq.isupper() and seq.isascii():
+            given = decorate(seq, h)
+    o = SequenceParameters(given)
+    if PRELUDE and h and h % PRELUDE == 0:
+        prelude(o, seq, h)
+    return o
+
+
+def prelude(o, seq, seed):
+    """2-5 other queries on the object first: every parameter must come out the same on an object with a query history
+    (stale memo, aliased array, shared default).  Deterministic in the sequence; errors of the prelude calls are ignored."""
+    import random as _r
+    r = _r.Random(seed)
+    n = len(seq)
+    sty = [i + 1 for i, c in enumerate(seq.upper()) if c in 'STY']
+
+    def phos():
+        o.set_phosphosites(r.sample(sty, min(len(sty), 2)))
+        o.get_kappa_after_phosphorylation()
+        o.get_phosphosequence()
+
+    ops = [o.get_kappa, o.get_deltaMax, o.get_delta, o.get_Omega, o.get_SCD, o.get_FCR, o.get_phasePlotRegion,
+           o.get_isoelectric_point, o.get_amino_acid_fractions, o.get_molecular_weight, o.get_mean_hydropathy,
+           o.get_uversky_hydropathy, o.get_countPos, o.get_fraction_disorder_promoting,
+           lambda: o.get_NCPR(7.0), lambda: o.get_FCR(4.0), lambda: o.get_linear_NCPR(min(n, 5)),
+           lambda: o.get_linear_sequence_composition(min(n, 4)), lambda: o.get_linear_hydropathy(min(n, 3)),
+           lambda: o.get_kappa_X(['E', 'D'], ['K', 'R']), lambda: o.get_kappa_X(['D', 'E', 'K', 'R']),
+           lambda: o.get_reduced_alphabet_sequence(8), lambda: o.get_linear_complexity(blobLen=min(n, 5)),
+           lambda: o.get_PPII_propensity(mode='hilser'), lambda: o.get_PPII_propensity(mode='kallenbach'),
+           lambda: o.get_deltaMax(True), phos, phos]
+    if n > 60:      # the charge-patterning searches are slow on long chains: cheap queries only
+        ops = ops[7:20] + ops[23:27]
+    for f in r.sample(ops, r.randint(2, 5)):
+        try:
+            f()
+        except Exception:
+            pass
 
 
 def fnum(x):
